@@ -10,7 +10,7 @@ CONSTANTS
   AllowDestroy = TRUE
   Fixed = TRUE
   MaxThrow = 0
-  ThrowAtHandover = FALSE
+  FixedThrow = TRUE
   FormShift = 0
 INVARIANTS TypeOK Bound BlockedOnlyWhenFull NeverBothNonEmpty PendingHoldsItem NoPhantomBackPressure NoLossNoDup NoDupEver DeliveredInOrder QueueOrder BlockedFIFO AdmittedLePops WithdrawnIsGone WaitersFIFO NoLostWaiter PopExcOnlyByUnblock DestroyCancels CancelOnlyByDestroy
 PROPERTIES PushReadyIffRoom ThrowLeavesNoTrace OnePerPop UnblockPushWithdraws AllResolved
